@@ -66,6 +66,7 @@ type Clause struct {
 
 type LoopSpec struct {
 	Hints      []Clause // checked, then assumed, at the head of the arbitrary iteration (after the invariant)
+	OnExit     []Clause // bottom-tested loops: checked, then assumed, on the exit edge of the latch (loop variables already incremented)
 	Invariants []Clause
 	Decreases  Expr
 	DecSrc     string
@@ -106,10 +107,12 @@ type FuncSpec struct {
 	Replay   string
 	ReplayKV [][2]string
 	Trusted  bool
+	InlineOnly bool // carries loop invariants for a function that is only verified inlined into its caller
 	Pure     bool // (for extern) no heap effect at all
 	File     string
 	Line     int
 	Captures []Param // for closures: names bound to free variables, positional
+	CallPre  map[string][]Clause // extra assertions at every call of a named callee inside this unit
 }
 
 func (f *FuncSpec) Key() string {
@@ -656,7 +659,7 @@ func readSpecLines(path string) ([]string, []int, error) {
 var clauseKeywords = map[string]bool{
 	"pure": true, "ghost": true, "func": true, "extern": true, "requires": true, "ensures": true,
 	"modifies": true, "loop": true, "let": true, "replay": true, "trusted": true, "lemma": true,
-	"guarded": true, "captures": true, "noeffect": true, "hint": true, "abstract": true,
+	"guarded": true, "captures": true, "noeffect": true, "hint": true, "abstract": true, "callpre": true, "inlined": true,
 }
 
 // joinClauses merges continuation lines (lines whose first word is not a keyword).
@@ -808,6 +811,26 @@ func (db *SpecDB) LoadFile(path, pkg string) error {
 				}
 				cur.Modifies = append(cur.Modifies, ml)
 			}
+		case "callpre":
+			// callpre CALLEE label: expr  -- checked (then assumed) at each call of CALLEE in this unit;
+			// the expression may use the callee's parameter names and the caller's variables
+			if cur == nil {
+				return fail(i, "callpre outside func")
+			}
+			callee, r2 := splitWord(rest)
+			label, src := splitLabel(r2)
+			e, err := ParseExpr(src)
+			if err != nil {
+				return fail(i, "%v", err)
+			}
+			if cur.CallPre == nil {
+				cur.CallPre = map[string][]Clause{}
+			}
+			cur.CallPre[callee] = append(cur.CallPre[callee], Clause{label, e, src})
+		case "inlined":
+			if cur != nil {
+				cur.InlineOnly = true
+			}
 		case "noeffect":
 			if cur != nil {
 				cur.Pure = true
@@ -845,6 +868,13 @@ func (db *SpecDB) LoadFile(path, pkg string) error {
 					return fail(i, "%v", err)
 				}
 				ls.Invariants = append(ls.Invariants, Clause{label, e, src})
+			case "onexit":
+				label, src := splitLabel(r3)
+				e, err := ParseExpr(src)
+				if err != nil {
+					return fail(i, "%v", err)
+				}
+				ls.OnExit = append(ls.OnExit, Clause{label, e, src})
 			case "hint":
 				label, src := splitLabel(r3)
 				e, err := ParseExpr(src)
@@ -1115,6 +1145,14 @@ func parseFuncHeader(rest string, extern bool) (*FuncSpec, error) {
 
 func parseModLoc(s string) (ModLoc, error) {
 	ml := ModLoc{Src: s}
+	if strings.HasPrefix(s, "sent(") && strings.HasSuffix(s, ")") {
+		e, err := ParseExpr(s[5 : len(s)-1])
+		if err != nil {
+			return ml, err
+		}
+		ml.E, ml.Kind = e, "chan"
+		return ml, nil
+	}
 	if k := strings.Index(s, "[*].(*"); k >= 0 {
 		// X[*].(*T).f : field f of every element (interface to *T) of slice X
 		rest := s[k+len("[*].("):]
